@@ -7,7 +7,7 @@ HERE = os.path.dirname(os.path.abspath(__file__))
 VERIF = os.path.dirname(HERE)
 sys.path.insert(0, HERE)
 import rustlex
-FILES = ['compact.rs', 'encode.rs', 'polynomials.rs', 'default.rs', 'datamasking.rs', 'placement.rs', 'score.rs', 'qr.rs', 'version.rs', 'hardcode.rs', 'module.rs']
+FILES = os.environ.get('MUT_FILES', '').split(',') if os.environ.get('MUT_FILES') else ['compact.rs', 'encode.rs', 'polynomials.rs', 'default.rs', 'datamasking.rs', 'placement.rs', 'score.rs', 'qr.rs', 'version.rs', 'hardcode.rs', 'module.rs']
 OUT = os.path.join(VERIF, 'mutants')
 REPL = [(r' <= ', ' < '), (r' < ', ' <= '), (r' >= ', ' > '), (r' > ', ' >= '), (r' == ', ' != '), (r' != ', ' == '),
         (r' \+ ', ' - '), (r' - ', ' + '), (r' && ', ' || '), (r' \|\| ', ' && '), (r' \+= ', ' -= '), (r' % 2\b', ' % 3'), (r' % 3\b', ' % 2'),
